@@ -1,14 +1,15 @@
+\* thorough: object numbers 1..3, two value ids, programs of up to 5 calls
 SPECIFICATION CSpec
 CONSTANTS MaxNum = 3
   Vals = {"a", "b"}
   OBJSTM = FALSE
   SEEKABLE = TRUE
-  MaxOps = 4
+  MaxOps = 5
   Threshold = 2
   CIPHERS = {"RC4", "AESV2", "AESV3"}
   IV_MODE = "fresh"
   KEY_MODE = "object"
   MEMBER_MODE = "container"
   META_MODE = "flag"
-INVARIANTS NoLeakOK ExemptPlainOK KeyScopeOK IVUniqueOK DistinctCipherOK MembersContainedOK Covered
+INVARIANTS AllOK
 CHECK_DEADLOCK FALSE
